@@ -52,11 +52,12 @@ type Options struct {
 	RequireClientCert bool
 	ClientKnowsCA     bool
 	ClientCert        string // "", good, foreign
+	ClientTLSBroken   string // "", key-mismatch, cert-file-missing: the client's own TLS material cannot be loaded
 	Insecure          bool
 	MustSecure        bool
 	// ServerTrustsForeignCA: the server verifies client certificates against the foreign CA
 	ServerTrustsForeignCA bool
-	Host              string // upstream host as the user wrote it (default server.test)
+	Host                  string // upstream host as the user wrote it (default server.test)
 
 	AppBuf  int  // buffer bound of application/target endpoints (default 64 KiB)
 	Keep    bool // endpoints keep all received bytes
@@ -94,7 +95,7 @@ type World struct {
 	HTTP     *server.HttpServer
 	IoSrv    *server.IoServer
 	Dns      *DnsWorld
-	CertDir  string // directory of the certificate files (Options.CertFiles)
+	CertDir  string               // directory of the certificate files (Options.CertFiles)
 	Sock     *server.SocketServer // the real socket server whose accept loop serves the stream carrier
 
 	mu         sync.Mutex
@@ -176,6 +177,12 @@ func New(o Options) (*World, error) {
 		w.CliCfg.Certificate, w.CliCfg.PrivateKey = o.PKI.Client.CertPEM, o.PKI.Client.KeyPEM
 	case "foreign":
 		w.CliCfg.Certificate, w.CliCfg.PrivateKey = o.PKI.ForeignCl.CertPEM, o.PKI.ForeignCl.KeyPEM
+	}
+	switch o.ClientTLSBroken {
+	case "key-mismatch":
+		w.CliCfg.Certificate, w.CliCfg.PrivateKey = o.PKI.Client.CertPEM, o.PKI.ForeignCl.KeyPEM
+	case "cert-file-missing":
+		w.CliCfg.CertificateFile, w.CliCfg.PrivateKey = "/nonexistent/verif/client.pem", o.PKI.Client.KeyPEM
 	}
 	w.CliCfg.InsecureSkipVerify = o.Insecure
 	if o.Bundle {
